@@ -168,6 +168,7 @@ func cmdCheck(args []string) int {
 	writeBaseline := fs.Bool("write-baseline", false, "")
 	verbose := fs.Bool("v", false, "")
 	noEvidence := fs.Bool("no-evidence", false, "")
+	noRetry := fs.Bool("no-retry", false, "self-test runs on changed trees: do not retry undecided obligations with a longer timeout")
 	module := fs.String("module", "", "module path (default: martian)")
 	replaysFlag := fs.String("replays", "", "directory for replay files (default <verif>/replays)")
 	only := fs.String("only", "", "debug: verify only functions whose key contains this substring")
@@ -304,7 +305,7 @@ func cmdCheck(args []string) int {
 			}
 		}
 	}
-	if nretry > 0 && nretry <= 12 {
+	if nretry > 0 && nretry <= 12 && !*noRetry {
 		solveAll(workdir, frs, retry, *timeout*3, 3)
 	}
 
